@@ -6,6 +6,7 @@
 #[path = "../../mccore/mccore.rs"]
 pub mod mccore;
 
+mod c05;
 mod c06;
 mod c08;
 mod c10;
@@ -40,7 +41,7 @@ macro_rules! modules {
         }
     };
 }
-modules!(c06, c08, c10, c14, c15, c16, c17);
+modules!(c05, c06, c08, c10, c14, c15, c16, c17);
 
 fn main() {
     let args: Vec<String> = std::env::args().skip(1).collect();
